@@ -5,7 +5,7 @@ EXTENDS Param, Json
 VARIABLE i
 PKinds == <<[p |-> "v", vst |-> "unset"], [p |-> "v", vst |-> "null"], [p |-> "v", vst |-> "x"], [p |-> "v", vst |-> "xy"], [p |-> "v", vst |-> "mb"], [p |-> "v", vst |-> "bs2"], [p |-> "big", vst |-> "unset"],
             [p |-> "1", vst |-> "unset"], [p |-> "@", vst |-> "unset"], [p |-> "*", vst |-> "unset"],
-            [p |-> "#", vst |-> "unset"], [p |-> "!", vst |-> "unset"]>>
+            [p |-> "#", vst |-> "unset"], [p |-> "-", vst |-> "unset"], [p |-> "!", vst |-> "unset"]>>
 ArgSets == << <<>>, <<"">>, <<"x">>, <<"x", "", "yz">>, <<"mb", "x">> >>
 WordOps == {":-", "-", ":=", "=", ":?", "?", ":+", "+"}
 PatOps == {"%", "%%", "#", "##"}
@@ -17,7 +17,7 @@ Valid(c) == /\ (c.op \in WordOps) <=> (c.w \in {"w", "uv", "side", "at"})
             /\ (c.w = "at") => (c.op \in {":-", "-", ":+", "+"} /\ c.q = "none")
             /\ (c.op \in PatOps) <=> (c.w \in {"pat", "patbs"})
             /\ (c.q = "wq") => (c.w \in {"w", "uv"})
-            /\ (c.p \in {"v", "#", "!", "big"}) => c.args = <<"x">>          \* the positional parameters do not matter
+            /\ (c.p \in {"v", "#", "!", "big", "-"}) => c.args = <<"x">>          \* the positional parameters do not matter
 Init == i = 1
 Next == i < Len(PKinds) /\ i' = i + 1
 Emit == \A c \in {x \in Cases(i) : Valid(x)} : PrintT(<<"CASE", ToJson(c)>>)
